@@ -8,6 +8,7 @@ from ..oracles import dtable_model as M
 from ..oracles import dtable_draw as D
 from ..oracles import dtable_ref as R
 from ..oracles import dmn_xml as X
+from . import c03
 
 PROP = "C19"
 GALLERY_FILE = "/repo/examples/src/examples/valid.rs"
@@ -45,29 +46,7 @@ def outcome(ctx, r, text, profile="release"):
     return Fail(sig, "%s at %s for:\n%s" % (r.get("panic", r), r.get("location", "?"), text))
 
 
-def gen_tuples(src, T, k):
-    out = []
-    pts = [M.boundary_points(T, j) for j in range(len(T["inputs"]))]
-    for _ in range(k):
-        tup = [src.choice(p) for p in pts]
-        if src.bool(0.04):
-            tup[src.int(0, len(tup) - 1)] = None
-        out.append(tup)
-    return out
-
-
-def c03_trigger(T):
-    """The table is in the trigger set of a defect that belongs to C03 (reported there): reference comparison is skipped."""
-    for r in T["rules"]:
-        for e in r["in"]:
-            k = M.negation_kinds(e)
-            if "iv" in k or "b" in k:
-                return "negated-interval-or-boolean"
-    if M.table_negative_endpoints(T):
-        return "negative-endpoint"
-    if T["hp"] in ("P", "O") and len(T["outputs"]) > 1:
-        return "priority-with-several-outputs"
-    return None
+C03_OPEN = ("C03/negated-interval-or-boolean-never-matches", "C03/priority-from-concatenated-output-values")
 
 
 # ---- part 1: the gallery re-drawn by the renderer ---------------------------------------------------------------------
@@ -129,7 +108,7 @@ def gen_roundtrip(src):
     T = M.gen_table(src, max_inputs=5, max_outputs=3, min_rules=1, max_rules=8, max_annotations=2, drawable=True,
                     neg_endpoint_rate=0.0)
     d = D.render(D.spec_of_table(T), src)
-    return {"table": T, "text": d["text"], "vertical": d["vertical"], "features": d["features"], "tuples": gen_tuples(src, T, 3)}
+    return {"table": T, "text": d["text"], "vertical": d["vertical"], "features": d["features"], "tuples": R.derive_tuples(src, T, 3)}
 
 
 def xml_of(T):
@@ -171,7 +150,6 @@ def judge_roundtrip(ctx, case, resp):
     if "results" not in px:
         return Fail("C19/xml-model-rejected", "the same table as DMN XML is not built: %r" % (px,))
     xml_vals = px["results"][1:]
-    skip = c03_trigger(T)
     for tup, dv, xv in zip(case["tuples"], r.get("values", []), xml_vals):
         if "value" not in dv:
             return Fail("C19/drawn-table-not-evaluable", "evaluator of the recognised table is not built: %r\n%s" % (dv, text))
@@ -187,13 +165,15 @@ def judge_roundtrip(ctx, case, resp):
         ref, info = R.evaluate(T, tup)
         if ref is R.UNSPEC:
             ctx.classes["eval:unspecified(%s)" % info["unspec"]] += 1
-        elif skip:
-            ctx.classes["eval:reference-skipped(C03:%s)" % skip] += 1
-        else:
-            ctx.classes["eval:" + info["pattern"]] += 1
-            if not R.same(a, ref):
-                return Fail("C19/drawn-vs-reference", "inputs %r: drawn table gives %s, reference %s (matching rules %s)\n%s" % (
-                    tup, R.show(a), R.show(ref), [i + 1 for i in info["matches"]], text))
+            continue
+        ctx.classes["eval:" + info["pattern"]] += 1
+        if not R.same(a, ref):
+            sig = c03.diagnose(T, tup, a, ref, info)
+            if sig in C03_OPEN:
+                ctx.classes["eval:differs-by-open-C03-finding(%s)" % sig[4:]] += 1      # reported under C03, not a C19 matter
+                continue
+            return Fail("C19/drawn-vs-reference", "inputs %r: drawn table gives %s, reference %s (matching rules %s)\n%s" % (
+                tup, R.show(a), R.show(ref), [i + 1 for i in info["matches"]], text))
     return None
 
 
@@ -202,14 +182,19 @@ def judge_roundtrip(ctx, case, resp):
 SUBSTITUTES = ["", " "] + D.BOX_GLYPHS
 
 
-def corruption_bases(ctx, count, small):
-    """Deterministic drawings (seeded by ctx) to be corrupted."""
+def corruption_bases(ctx, count, tiny):
+    """Deterministic drawings (seeded by ctx) to be corrupted at every position."""
     out = []
     for i in range(count):
-        src = Src(ctx.rng("corrupt-base/%d" % i))
-        T = M.gen_table(src, max_inputs=2 if small else 4, max_outputs=2 if small else 3, min_rules=1, max_rules=2 if small else 5,
-                        max_annotations=1 if small else 2, drawable=True, neg_endpoint_rate=0.0)
-        d = D.render(D.spec_of_table(T), src, plain=small and i % 2 == 0, decorate=False)
+        src = Src(ctx.rng("corrupt-base/%s/%d" % (tiny, i)))
+        if tiny:
+            T = M.gen_table(src, max_inputs=2, max_outputs=2, min_rules=1, max_rules=2, max_annotations=1, drawable=True, neg_endpoint_rate=0.0)
+            if i % 3 == 0:
+                T["name"] = T["name"] or "Fee"
+            d = D.render(D.spec_of_table(T), src, vertical=(i % 2 == 1), plain=True, decorate=False)
+        else:
+            T = M.gen_table(src, max_inputs=3, max_outputs=3, min_rules=1, max_rules=4, max_annotations=2, drawable=True, neg_endpoint_rate=0.0)
+            d = D.render(D.spec_of_table(T), src, decorate=False)
         out.append(d["text"])
     return out
 
@@ -242,6 +227,31 @@ def judge_corrupt(ctx, case, resp, profile="release"):
     ctx.note(key=text, nontrivial=(kind == "on-line-glyph" or how == "glyph"), labels=["corruption", kind + "/" + how + "/" + res],
              sample={"corrupted": text, "result": res} if how == "glyph" else None)
     return outcome(ctx, r, text, profile)
+
+
+def gen_sampled(src):
+    T = M.gen_table(src, max_inputs=4, max_outputs=3, min_rules=1, max_rules=5, max_annotations=2, drawable=True, neg_endpoint_rate=0.0)
+    base = D.render(D.spec_of_table(T), src)["text"]
+    glyphs = [i for i, ch in enumerate(base) if ch in D.BOX_GLYPHS]
+    hits = []
+    for _ in range(20):
+        pos = src.choice(glyphs) if src.bool(0.7) else src.int(0, len(base) - 1)
+        rep = src.choice(SUBSTITUTES)
+        if base[pos] != "\n" and rep != base[pos]:
+            hits.append([pos, rep])
+    return {"base": base, "hits": hits}
+
+
+def reqs_sampled(case):
+    return [{"op": "dtable", "text": corrupt(case["base"], p, r)} for p, r in case["hits"]]
+
+
+def judge_sampled(ctx, case, resp, profile="release"):
+    for (p, rep), r in zip(case["hits"], resp):
+        f = judge_corrupt(ctx, {"base": case["base"], "pos": p, "rep": rep}, [r], profile)
+        if f:
+            return f
+    return None
 
 
 # ---- part 4: heavier damage (several characters, lines, columns) ---------------------------------------------------------
@@ -315,16 +325,17 @@ def setup(ctx):
     ctx.p_gallery = ctx.register(Part("gallery", None, reqs_gallery, judge_gallery))
     ctx.p_round = ctx.register(Part("roundtrip", gen_roundtrip, reqs_roundtrip, judge_roundtrip))
     ctx.p_corrupt = ctx.register(Part("corrupt", None, reqs_corrupt, judge_corrupt, profile="both"))
+    ctx.p_sampled = ctx.register(Part("corrupt-sampled", gen_sampled, reqs_sampled, judge_sampled, profile="both"))
     ctx.p_damage = ctx.register(Part("damage", gen_damage, reqs_damage, judge_damage))
 
 
 def run(ctx):
     ctx.enumerate(ctx.p_gallery, gallery_cases(ctx), batch=50, name="gallery drawings re-drawn by the renderer (layout variants)")
     ctx.forall(ctx.p_round, ctx.scale(4000, 300000), batch=200)
-    small = corruption_bases(ctx, ctx.scale(5, 60), True)
-    large = corruption_bases(ctx, ctx.scale(1, 60), False)
-    ctx.enumerate(ctx.p_corrupt, single_corruptions(small + large), batch=1000,
-                  name="every position x {delete, blank, each box glyph} of generated drawings", exhaustive=True)
+    bases = corruption_bases(ctx, ctx.scale(6, 80), True) + corruption_bases(ctx, ctx.scale(0, 40), False)
+    ctx.enumerate(ctx.p_corrupt, single_corruptions(bases), batch=1000,
+                  name="every position x {delete, blank, each box glyph} of generated drawings, both builds", exhaustive=True)
+    ctx.forall(ctx.p_sampled, ctx.scale(1500, 120000), batch=50)
     ctx.forall(ctx.p_damage, ctx.scale(4000, 600000), batch=500)
 
 
